@@ -35,6 +35,15 @@ func c07Deviations() []envDev {
 	add("payload-empty", "payload", "reject", "", "", func(s *envSpec) { s.payload = []byte{} })
 	add("jws-payload-not-an-object", "payload", "recorded", "jws", "", func(s *envSpec) { s.payload = []byte(`[1,2,3]`); s.cont.Payload = s.payload })
 	add("cose-payload-binary", "payload", "benign", "cose", "", func(s *envSpec) { s.payload = []byte{0, 1, 2, 0xff, 0xfe}; s.cont.Payload = s.payload })
+	// the payload object is the signer's business: members that happen to be called like JWT registered claims, of any JSON type
+	for _, pl := range []struct{ n, v string }{
+		{"claim-names-with-numbers", `{"exp":1,"nbf":99999999999,"iat":1.5e3,"targetArtifact":{"size":1}}`},
+		{"claim-names-with-other-types", `{"exp":"2031-01-01T00:00:00Z","nbf":"soon","iat":null,"sub":{"a":1},"aud":42,"iss":["x"],"Jti":7}`},
+		{"claim-names-in-other-letter-case", `{"EXP":"never","Aud":{"x":[1,2]},"ISS":false}`},
+	} {
+		pl := pl
+		add("payload-"+pl.n, "payload", "benign", "", "", func(s *envSpec) { s.payload = []byte(pl.v); s.cont.Payload = s.payload })
+	}
 	// signing scheme header
 	add("scheme-missing", "scheme", "reject", "", "", func(s *envSpec) { s.hDel(envenc.HdrScheme) })
 	add("scheme-empty", "scheme", "reject", "", "", func(s *envSpec) { s.hSet(envenc.HdrScheme, `""`, envenc.CText("")) })
